@@ -286,6 +286,12 @@ func (ps *PubSub) subscribe(conn redcon.Conn, pattern bool, channel string) {
 		sconn:   sconn,
 	}
 	ps.chans.Set(entry)
+	// a repeated (p)subscribe replaces the entry in the tree, drop the stale one here as well
+	for ient := range sconn.entries {
+		if ient.pattern == pattern && ient.channel == channel {
+			delete(sconn.entries, ient)
+		}
+	}
 	sconn.entries[entry] = true
 
 	// send a message to the client
